@@ -97,8 +97,10 @@ def render(rf):
 def _ev(expr, txn, variables, rows):
     try:
         return lang.Ref(txn, variables, rows).eval_str(expr)
-    except (lang.RefError, lang.Unmodelled):
+    except lang.RefError:
         raise
+    except lang.Unmodelled as e:
+        raise OutOfDomain('not modelled: %s' % e)
     except RecursionError:
         raise OutOfDomain('recursion')
     except Exception as e:
@@ -318,7 +320,8 @@ class RuleGen:
                     return e
             return {'N': '500', 'B': 'amount > 100', 'S': '"Amex"'}[kind]
         out.append(('big', r.choice(['500', '100', '0.5', clean('N', 1)])))
-        out.append(('is_big', r.choice(['amount > 100', 'false', clean('B', 1)])))
+        # (names are case-insensitive also where a variable is DEFINED: `AMOUNT > 100`, call-free, depends on the row like `amount > 100` does)
+        out.append(('is_big', r.choice(['amount > 100', 'false', clean('B', 1), 'AMOUNT > 100', 'Month >= 6', 'Date >= "2025-02-01"', 'Amount < 0 or Day > 15'])))
         out.append(('label', r.choice(['"Amex"', '"net"', clean('S', 1)])))
         if r.random() < .1:
             out.pop(r.randrange(3))
